@@ -107,6 +107,36 @@ class Report:
                 self.violation('%s / VACUITY / %s' % (self.pid, rule), 'VACUITY',
                                'rule %s matched %d instance(s), fewer than the %d confirmed by reading: the rule may have gone blind' % (rule, got, n))
 
+XVAL = None
+
+def cross_validate(F):
+    """Extractor cross-validation: for every body, the multiset of resolved callees in the THIR dump (what the rules read) must equal
+    the multiset of Call terminators in the MIR dump (what gets compiled), up to two understood classes of MIR/THIR-only calls."""
+    from collections import Counter
+    from facts import walk, canon
+    ALLOW_THIR_ONLY = {'alloc::intrinsics::write_box_via_move'}
+    ALLOW_MIR_ONLY = {'core::str::traits::<impl std::cmp::PartialEq for str>::eq'}
+    bodies = 0; explained = 0; bad = []
+    for c in F.crates:
+        for name, t in c.thir.items():
+            m = c.mir.get(name)
+            if m is None: continue
+            f = c.fns.get(name)
+            if f and f.get('derived'): continue
+            a = Counter(); b = Counter()
+            for e in walk(t['body']):
+                if e['k'] == 'Call' and e.get('callee'): a[canon(e['callee'].get('res') or e['callee']['def'])] += 1
+            for blk in m['blocks']:
+                if blk['cleanup']: continue
+                tt = blk['term']
+                if tt['k'] == 'Call' and tt.get('callee'): b[canon(tt['callee'].get('res') or tt['callee']['def'])] += 1
+            bodies += 1
+            if a != b:
+                ot = {k for k, v in a.items() if v > b.get(k, 0)}; om = {k for k, v in b.items() if v > a.get(k, 0)}
+                if ot <= ALLOW_THIR_ONLY and om <= ALLOW_MIR_ONLY: explained += 1
+                else: bad.append((c.name, name, sorted(ot)[:3], sorted(om)[:3]))
+    return {'bodies_compared': bodies, 'explained_differences': explained, 'unexplained': bad}
+
 def load_known():
     p = os.path.join(VERIF, 'known_findings.json')
     if not os.path.exists(p): return []
@@ -116,6 +146,10 @@ def finish(report, level, tier, t0, explanation, trusted_base, assumptions, chec
     """Print results, write evidence, return exit code."""
     pid = report.pid
     report.check_floors()
+    if XVAL is not None:
+        report.count('F:bodies-cross-validated(THIR-vs-MIR)', XVAL['bodies_compared'])
+        for (cn, fn, ot, om) in XVAL['unexplained']:
+            report.violation('%s / F / extractor mismatch' % fn, 'UNDECIDABLE', 'THIR and MIR dumps of %s disagree on the calls made (THIR-only %s, MIR-only %s): the extractor may have dropped an expression; refusing to conclude' % (fn, ot, om))
     known = [k for k in load_known() if k.get('property') == pid and k.get('status') == 'known']
     known_keys = {k['key']: k for k in known}
     new = []
